@@ -173,6 +173,7 @@ def run_case(chk, stream, case):
     sink = io.StringIO()
     npeer = 0
     authed_now = False      # first messages can only arrive on an authenticated connection
+    parted = False          # model and code gave different answers once: no more comparisons, the oracles go on
     for ei, ev in enumerate(case["events"]):
         kind, _, arg = ev.partition(":")
         nsent = len(w.near.sent)
@@ -268,7 +269,9 @@ def run_case(chk, stream, case):
         model = d.ask("pk ev " + mev)
         mouts, mstate = [x.strip() for x in model.split("|")]
         mo = sorted(_norm_upload(x) for x in mouts.split(",") if x)
-        diverged = sorted(outs) != mo or state != mstate
+        diverged = (sorted(outs) != mo or state != mstate) and not parted
+        if parted:
+            mo = sorted(outs)           # model and code have parted earlier: the real system runs on, only the oracles decide from here
         if diverged:
             fails.append(corr("history:" + kind, "event #%d %s of %s: impl=%s%s | %s   model=%s | %s" % (ei, mev, case["events"], sorted(outs),
                                                               " (%s: %s)" % (type(raised).__name__, str(raised)[:60]) if raised is not None else "", state, mo, mstate)))
@@ -283,17 +286,18 @@ def run_case(chk, stream, case):
             fails.append(oracle("C14:event-raises:%s" % kind, "history %s: handling %s raises %s: %s (account with registration id %#x)"
                                 % (case["events"][:ei + 1], mev, type(raised).__name__, str(raised)[:80], getattr(getattr(w.control, "manager", None), "registration_id", 0) or 0)))
             break
-        if diverged and not (kind == "authed" and mev.endswith("1")):
-            break
+        if diverged:
+            parted = True
         if kind == "authed" and mev.endswith("1"):
             # an authenticated passive login must offer exactly the keys whose upload was never confirmed
             got = sorted(w.uploads[-1]["ids"]) if any(o.startswith("upload") for o in outs) else []
             elsewhere = set(i for ui in w.inflight[:-1 if got else None] for i in w.uploads[ui]["ids"])     # offered by another upload still in flight
             want = sorted(i for i, s, _ in rows if not s and i not in elsewhere)
-            if want and got != want:
-                fails.append(oracle("C14:unconfirmed-not-reoffered", "history %s: unconfirmed keys %s, offered at this login: %s" % (case["events"][:ei + 1], want, got)))
-                break
-            if diverged:
+            if got != want:
+                extra = [i for i in got if i not in want]
+                sig = "C14:confirmed-key-offered-again" if extra and all(i in got for i in want) else "C14:unconfirmed-not-reoffered"
+                fails.append(oracle(sig, "history %s: unconfirmed keys %s, offered at this login: %s%s"
+                                    % (case["events"][:ei + 1], want, got, " (keys %s were confirmed before)" % extra if extra else "")))
                 break
     # id uniqueness over the whole history
     seen = {}
